@@ -149,7 +149,7 @@ func checkFixedSizeTable(c *core.Ctx, gr *genRun) {
 func init() { register("C04", checkC04) }
 
 func checkC04(c *core.Ctx) {
-	c.Explainf("C04 (decided clauses). R1: after a nested record is decoded from buf[at:], the cursor advance must be derived from the input (a consumed count or the length on the wire), never from Size() of the decoded value — a reader that knows fewer fields computes a smaller Size() than what was sent; checked on every emitted UnmarshalBebop/MustUnmarshalBebop of every explored shape by symbolic cursor simulation; the wire-derived advance is 4+len after a message and 5+len after a union. R2: the dispatch of every message/union decoder has a default arm that ends decoding without an error (byte path) or drains the bounded region, restores the base reader and returns the latch (stream path). R3: the stream path bounds the body with io.LimitedReader{R: <saved r.Reader>, N: int64(<prefix read>)[+1]}. R4: decoders keep arms for deprecated fields, encoders and Size() omit them. R6: the encoders write message fields in ascending index order (an older reader stops at the first unknown index). NOT decided: equality of the restricted value on the common fields.")
+	c.Explainf("C04 (decided clauses). R1: after a nested record is decoded from buf[at:], the cursor advance must be derived from the input (a consumed count or the length on the wire), never from Size() of the decoded value — a reader that knows fewer fields computes a smaller Size() than what was sent; checked on every emitted UnmarshalBebop/MustUnmarshalBebop of every explored shape by symbolic cursor simulation; the wire-derived advance is 4+len after a message and 5+len after a union. R2: the dispatch of every message/union decoder has a default arm that ends decoding without an error (byte path) or drains the bounded region, restores the base reader and returns the latch (stream path). R3: the stream path bounds the body with io.LimitedReader{R: <saved r.Reader>, N: int64(<prefix read>)[+1]}. R4: decoders keep arms for deprecated fields, encoders and Size() omit them. R6: the encoders write message fields in ascending index order (an older reader stops at the first unknown index). R7: no byte decoder returns an error for the value of the length prefix alone (`if bodyLen > K { return … }`): a newer writer's body is longer than anything this reader's schema produces. NOT decided: equality of the restricted value on the common fields.")
 	gr := startGen(c)
 	if gr == nil {
 		return
@@ -168,6 +168,12 @@ func checkC04(c *core.Ctx) {
 			}
 			for k, f := range bad {
 				c.Check("R1", k, anchorPos(gr.p, rf.Spec.Kind, m), false, f.Msg+" — "+rf.where(f.Pos))
+			}
+			// R7: no record is refused for the value of its length prefix
+			for _, f := range mf.Fails {
+				if f.Rule == "prefixreject" {
+					c.Check("R7", failKey(rf, m, f), anchorPos(gr.p, rf.Spec.Kind, m), false, f.Msg+" — "+rf.where(f.Pos))
+				}
 			}
 			// positive instances: nested records whose advance is wire-derived
 			if len(bad) == 0 {
@@ -339,7 +345,7 @@ func (gr *genRun) defaultDrains(rf *RecFacts) bool {
 func init() { register("C06", checkC06); register("C07", checkC07) }
 
 func checkC06(c *core.Ctx) {
-	c.Explainf("C06 (decided clauses). R1/R1b: in every emitted UnmarshalBebop, each read of buf (iohelp.Read*Bytes, buf[at], buf = buf[n:], copy from buf) must be covered by a preceding `len(buf[at:]) < n` check that proves at least the bytes it touches, tracked by symbolic cursor simulation (constant and len(x)*k byte counts, bulk checks before fixed-size element loops), or be a call to a helper that checks itself (ReadStringBytes*, Make*FromBytes); the cursor may only be advanced by amounts proven present — an advance by Size() of a decoded record is not. R2: the checked string readers of iohelp guard their slice by two dominating length tests. R3: no iohelp stream reader computes its result from the scratch buffer on the path where the read failed, unless ErrorReader.Read clears the destination on failure. R4: errors of nested reads are returned immediately. R5: Drain latches a premature end of the bounded region. NOT decided: 'does not hang' and memory proportionality as quantities.")
+	c.Explainf("C06 (decided clauses). R1/R1b: in every emitted UnmarshalBebop, each read of buf (iohelp.Read*Bytes, buf[at], buf = buf[n:], copy from buf) must be covered by a preceding `len(buf[at:]) < n` check that proves at least the bytes it touches, tracked by symbolic cursor simulation (constant and len(x)*k byte counts, bulk checks before fixed-size element loops), or be a call to a helper that checks itself (ReadStringBytes*, Make*FromBytes); the cursor may only be advanced by amounts proven present — an advance by Size() of a decoded record is not. R2: the checked string readers of iohelp guard their slice by two dominating length tests. R3: no iohelp stream reader computes its result from the scratch buffer on the path where the read failed, unless ErrorReader.Read clears the destination on failure. R4: errors of nested reads are returned immediately. R5: Drain latches a premature end of the bounded region. R6: in the byte decoder every allocation sized by a count from the input is preceded by a check of that count against the remaining input (the stream decoder's unbounded allocations are the known finding recorded under C07/R2 and are not repeated here). NOT decided: 'does not hang' and memory proportionality as quantities.")
 	c.Assume("int is 64 bits wide (int(sz)+4 in ReadStringBytes cannot wrap); 32-bit targets are outside the claim")
 	gr := startGen(c)
 	if gr == nil {
@@ -363,6 +369,13 @@ func checkC06(c *core.Ctx) {
 		}
 		if len(bad) == 0 {
 			c.Check("R1", "all reads covered "+bodyKeyAll(rf), anchorPos(gr.p, rf.Spec.Kind, mBR), true, "")
+		}
+		// R6 (= C07/R2 on the byte path): a prefix that still holds the count
+		// must not make the decoder allocate for elements the prefix cannot hold
+		for _, a := range mf.Allocs {
+			key := fmt.Sprintf("alloc %s %s", mBR, a.Kind)
+			c.Check("R6", key, anchorPos(gr.p, rf.Spec.Kind, mBR), a.Bounded || a.ZeroSize,
+				fmt.Sprintf("make(%s) for %s is sized by a count read from the input with no preceding check against the remaining input: a short prefix of a large encoding allocates for the whole of it — %s", a.Kind, a.Operand, rf.where(a.Pos)))
 		}
 		for _, m := range []string{mSR} {
 			for _, f := range rf.M[m].Fails {
